@@ -11,7 +11,7 @@
      showu <v>                               -> text
      draws <seed> <req>...                   vita::random::seed(seed) then the requests in order, each answered by the
                                              modelled libstdc++ distribution from the engine state:
-                                               i:<lo>:<hi> (signed hex)  r:<lo>:<hi> (double bits)  b:<p>  s (one output skipped)
+                                               i:<lo>:<hi> (signed hex)  r:<lo>:<hi> (double bits)  b:<p>  d:<w0,w1,..> (discrete_distribution)  s (one output skipped)
                                              -> i:<v> | r:<bits> | b:<0|1> | s | FAIL   per request                          *)
 let n_of_hex h = Z.to_N (z_of_hex h)
 let hex_of_n x = hex_of_z (Z.of_N x)
@@ -39,12 +39,14 @@ let parse_req (t : string) : request =
   | ["i"; lo; hi] -> QInt (z_of_shex lo, z_of_shex hi)
   | ["r"; lo; hi] -> QReal (f64_of_hex lo, f64_of_hex hi)
   | ["b"; p] -> QBool (f64_of_hex p)
+  | ["d"; ws] -> QDisc (List.map (fun w -> z_of_int (int_of_string w)) (String.split_on_char ',' ws))
   | ["s"] -> QSkip
   | _ -> failwith ("request " ^ t)
 let show_answer = function
   | AInt v -> "i:" ^ shex_of_z v
   | AReal v -> "r:" ^ hex_of_f64 v
   | ABool b -> if b then "b:1" else "b:0"
+  | ADisc v -> "d:" ^ shex_of_z v
   | ASkipped -> "s"
   | AFail -> "FAIL"
 
